@@ -623,6 +623,30 @@ def oracle_surrogates(ctx):
             ctx.count("oracle:surrogate_refused:%s" % label, refused)
 
 
+def oracle_other_leaves(ctx):
+    """families of pairwise unequal values of leaf types outside the models (uuid, complex, time with microseconds,
+    ip interfaces, __slots__ objects, Enum members, numpy, pytz datetimes, ranges): no two share a hash"""
+    fams, build = base.other_leaf_families()
+    for name, exprs in fams.items():
+        for o in MODES3:
+            hs = []
+            for e in exprs:
+                v = build(e)
+                try:
+                    hs.append(impl_hash(v, o)[0])
+                except Exception as ex:
+                    hs.append(None)
+                    ctx.count("oracle:other_leaves:raises:" + type(ex).__name__)
+            n = len(exprs)
+            ctx.evaluations += n * (n - 1) // 2
+            ctx.count("oracle:other_leaf_families")
+            for i, j in itertools.combinations(range(n), 2):
+                if hs[i] is not None and hs[i] == hs[j]:
+                    ctx.nontrivial.add(("other_leaf", name, o, i, j))
+                    ctx.fail({"kind": "other_leaf_collision", "family": name, "opts": list(o), "value_expr": exprs[i], "other_expr": exprs[j]},
+                             "equal hashes for the unequal values %s and %s" % (exprs[i], exprs[j]))
+
+
 def oracle_hashers(ctx, pool):
     """hasher variants: the equality pattern over the pool does not depend on which collision-free hasher is plugged in -
     SHA-1, a hasher returning ints (joined through map(str, ...)), the default named explicitly - it is the pattern of
@@ -694,6 +718,7 @@ def run(ctx):
     corr_spec(ctx, pool, "c07_spec")
     corr_alike(ctx, pool, "c07_alike")
     oracle_hashers(ctx, pool)
+    oracle_other_leaves(ctx)
     # direct oracle: all pairs, three modes, both hashers
     for o in MODES3:
         oracle_pool(ctx, pool, o, None, "sha256")
@@ -728,6 +753,10 @@ def replay(ctx, data):
         n0 = len(ctx.failures) + len(ctx.known_seen)
         shared_temporaries_check(ctx, o, case["n"], case["variant"])
         print("replay: shared hashes= table over %d short-lived values (variant %d)" % (case["n"], case["variant"]))
+        return
+    if case.get("kind") == "other_leaf_collision":
+        oracle_other_leaves(ctx)
+        print("replay: families of unequal values of leaf types outside the models: %s / %s" % (case.get("value_expr"), case.get("other_expr")))
         return
     if "value" not in case or "other" not in case:
         return run(ctx)
